@@ -119,7 +119,8 @@ class Rule:
                             try:
                                 datum = v(datum)
                                 break
-                            except TypeError:
+                            except (TypeError, ValueError):
+                                # e.g. `int("abc")` raises ValueError
                                 pass
                     datum_path = DataPath(*datum_path)
                     set_datum(data_copy, datum_path, datum)
